@@ -93,6 +93,13 @@ def check_file(text, headers):
 B_TEXTS = ['a\n', 'line one\nline two\n', 'a', 'x\r\ny\r\n', ' lead\n',
            '@@ -1 +1 @@\n-x\n+y\n', 'é😀\n', '# not a header\n',
            '#diffx: version=1.0\n', '...\n', 'delta 14\n', '{"a": 1}\n']
+# Markdown constructs (a lexer may hand text/markdown preambles to a
+# Markdown lexer, which hands fenced blocks to further lexers)
+B_TEXTS += ['```json\n{"path": "src/main.c", ...}\n```\n',
+            '```python\ndef f(:\n    "unterminated\n```\n',
+            '# Title\n\n[#diffx:](u) *x* `c` <b>\n\n    indented code\n',
+            '```diff\n-a\n+b\n@@ broken\n```\n~~~c\nint main( {\n~~~\n',
+            '> quote\n\n1. item\n* * *\n| a | b |\n|---|---|\n']
 B_METAS = [{'a': 'x'}, {'path': 'a/b', 'n': [1, {'k': None}]},
            {'é': 'ü', 's': 'two\nlines'}, {'#x': '#y', 't': True}]
 B_DIFFS = [b'a\n', b'--- a\n+++ b\n@@ -1 +1,2 @@\n-x\n+y\n+z\n',
